@@ -646,7 +646,7 @@ def drv_driver(D, n, tier):
     fn = getattr(Integration, FUNCS[D])
     hi = {1: 12, 2: 10, 3: 9, 4: 7, 5: 6}[D]
     d = Driver('C02', 'driver_%dpop' % D,
-               bound='%d random calls of Integration.%s on a copy of the input with T <= one time step (T = dt*f, f in {1} U (0.05,1), '
+               bound='%d random calls of Integration.%s on a copy of the input (C-ordered, Fortran-ordered or a transposed view, by turns, for 2-5 populations) with T <= one time step (T = dt*f, f in {1} U (0.05,1), '
                      'initial_t 0 or random, timescale_factor drawn so that dt spans 1e-7..1e-1): common grid of 3..%d points '
                      '(uniform/exponential/quadratic/random monotone, endpoints exactly 0 and 1), parameters in the property ranges with '
                      'distinct m per ordered pair, theta0 in {0,1,1e-2..1e3}, frozen/nomut flag subsets (m=0 on frozen), beta 0.2..5 (1-D), '
@@ -680,8 +680,14 @@ def drv_driver(D, n, tier):
             out = {}
             fail = None
             modified = False
+            layout = ('C', 'F', 'reversed-axes-view')[ci % 3] if D >= 2 else 'C'
+            info['input_layout'] = layout
             for st, wrap in styles.items():
                 arg = phi0.copy()
+                if layout == 'F':
+                    arg = np.asfortranarray(arg)                                   # same values, column-major memory
+                elif layout == 'reversed-axes-view':
+                    arg = np.ascontiguousarray(arg.transpose()).transpose()        # same values, a transposed view of a C array
                 try:
                     res = fn(arg, xx, T, initial_t=t0, **driver_kwargs(P, D, wrap))
                 except Exception as e:
